@@ -8,15 +8,57 @@ ID = "C21"
 ENGINE = "B"
 RULE = ("the shipped solve sequence (thread mode) on random DCOPs with dpop|mgm2|maxsum|adsa|dsa, "
         "1..4 agents, metrics mode value_change|cycle_change|period (agent-level periodic "
-        "actions), always with line-level pre-emption in pydcop/infrastructure and optional "
+        "actions); 25% resilient runs with one removal (pause/resume/repair callbacks); 25% "
+        "'dynamic' runs: bare agents + directory hosting probe computations deployed at different "
+        "moments that register discovery callbacks on each other, message each other (also before "
+        "the destination exists), pause/resume and tick periodically; always with line-level pre-emption in pydcop/infrastructure and optional "
         "thread stalls; every start/on_message/pause/periodic/discovery callback is recorded "
         "with the thread that ran it and its enter/exit event numbers; non-trivial = >=2 agent "
         "threads, >=20 callbacks recorded, >=1 pre-emption fired; distinct = SHA-256 of "
         "decision-and-event log")
 
 
+def gen_dynamic(rng, tier):
+    """Bare agents + directory; probe computations deployed at different moments that register
+    discovery callbacks on each other, message each other (also before the destination exists),
+    pause/resume and run periodic actions."""
+    agents = [f"a{i}" for i in range(rng.randint(2, 4))]
+    comps = [f"p{i}" for i in range(rng.randint(2, 6))]
+    host = {c: rng.choice(agents) for c in comps}
+    pending = comps[:]
+    rng.shuffle(pending)
+    deployed, ops, serial = [], [], 0
+    n_ops = rng.randint(6, 30 if tier == "thorough" else 22)
+    while len(ops) < n_ops or pending:
+        r = rng.random()
+        if pending and (r < 0.3 or not deployed or len(ops) >= n_ops):
+            c = pending.pop()
+            others = [x for x in comps if x != c]
+            watch = sorted(rng.sample(others, rng.randint(0, min(3, len(others)))))
+            ops.append(["deploy", host[c], c, watch, rng.choice([None, None, 0.2, 0.5])])
+            deployed.append(c)
+        elif r < 0.75:
+            serial += 1
+            src = rng.choice(deployed)
+            dst = rng.choice([x for x in comps if x != src])      # possibly not deployed yet
+            ops.append(["send", src, dst, serial, rng.randint(0, 3)])
+        elif r < 0.82:
+            ops.append(["pause", rng.choice(deployed)])
+        elif r < 0.9:
+            ops.append(["resume", rng.choice(deployed)])
+        else:
+            c = rng.choice(deployed)
+            ops.append([rng.choice(["watch", "watch", "unwatch"]), c,
+                        rng.choice([x for x in comps if x != c])])
+    return {"workload": "dynamic", "algo": "probe", "collect_moment": "none",
+            "agent_names": agents, "comps": comps, "host": host, "ops": ops,
+            "wait_p": rng.choice([0.0, 0.2, 0.6, 1.0])}
+
+
 def generate(rng, tier):
     if rng.random() < 0.25:
+        return gen_dynamic(rng, tier)
+    if rng.random() < 0.33:
         # resilient run with one removal event: pause / resume / repair callbacks
         from . import resilient
         case = resilient.gen_resilient(rng, tier, n_agents=(3, 5), per_agent=(1, 1),
@@ -61,9 +103,12 @@ class ThreadMonitor:
         self.violations = {}
         self._undo = []
         self._cbmap = {}
+        self.ignore = set()      # agents started by the harness itself (bare directory agent)
 
     def _enter(self, agent, what, kind):
         sim = self.sim
+        if agent.name in self.ignore:
+            return
         th = sim.current
         self.count += 1
         self.kinds[kind] += 1
@@ -89,6 +134,8 @@ class ThreadMonitor:
         self.active[agent.name].append((th, what))
 
     def _exit(self, agent):
+        if agent.name in self.ignore:
+            return
         self.active[agent.name].pop()
 
     def wrap_callable(self, agent, f, what, kind):
@@ -173,19 +220,95 @@ class ThreadMonitor:
         self._undo = []
 
 
+def run_dynamic(case, tape, sim, result):
+    from . import bare
+    b = bare.Bare(sim, case["agent_names"])
+    MPC, Message = b.Control.__mro__[1], b.Message
+    probes = {}
+
+    class Probe(MPC):
+        def __init__(self, name, discovery, watch, route, period):
+            super().__init__(name)
+            self.discovery, self.watch, self.route, self.period = discovery, watch, route, period
+            self.seen, self.ticks = [], 0
+            self._msg_handlers["x"] = self._on_x
+
+        def on_start(self):
+            for w in self.watch:
+                self.discovery.subscribe_computation(w, self._on_disc)
+            if self.period:
+                self.add_periodic_action(self.period, self._tick)
+
+        def _on_disc(self, evt, comp, agent):
+            self.seen.append((evt, comp, agent))
+
+        def _on_x(self, sender, msg, t):
+            serial, ttl = msg.content
+            if ttl > 0 and self.route:
+                self.post_msg(self.route[(serial + ttl) % len(self.route)],
+                              Message("x", (serial, ttl - 1)))
+
+        def _tick(self):
+            self.ticks += 1
+            if self.route and self.ticks <= 6:
+                self.post_msg(self.route[self.ticks % len(self.route)], Message("x", (0, 0)))
+
+    def do(op):
+        kind = op[0]
+        if kind == "deploy":
+            _, agt, c, watch, period = op
+            a = b.agents[agt]
+            pr = Probe(c, a.discovery, list(watch), [x for x in case["comps"] if x != c], period)
+            probes[c] = pr
+            b.on_agent(agt, lambda: (a.add_computation(pr), pr.start()))
+        elif kind == "send":
+            _, src, dst, serial, ttl = op
+            pr = probes[src]
+            b.on_agent(case["host"][src], lambda: pr.post_msg(dst, Message("x", (serial, ttl))))
+        elif kind in ("pause", "resume"):
+            pr = probes[op[1]]
+            b.on_agent(case["host"][op[1]], lambda: pr.pause(kind == "pause"))
+        elif kind == "watch":
+            pr = probes[op[1]]
+            b.on_agent(case["host"][op[1]],
+                       lambda: pr.discovery.subscribe_computation(op[2], pr._on_disc))
+        elif kind == "unwatch":
+            pr = probes[op[1]]
+
+            def unwatch():
+                try:
+                    pr.discovery.unsubscribe_computation(op[2], pr._on_disc)
+                except Exception:
+                    pass                      # not subscribed: nothing to undo
+            b.on_agent(case["host"][op[1]], unwatch)
+    for op in case["ops"]:
+        do(op)
+        if tape.coin(case["wait_p"]):
+            b.drain(20.0)
+    result["drained"] = b.drain(30.0)
+    result["status"] = "dynamic"
+    result["disc_events"] = sum(len(p.seen) for p in probes.values())
+    b.shutdown()
+
+
 def execute(case, tape):
     out = common.outcome()
     cfg = orch.sim_config(tape)
     cfg["preempt_p"] = tape.pick([0.01, 0.03, 0.08])
     feats = dict(algo=case["algo"], collect=case["collect_moment"])
     out["subspace"] = f"{case.get('workload', 'solve')}/{case['algo']}/{case['collect_moment']}"
-    built = build.Built(case)
+    built = build.Built(case) if case.get("workload") != "dynamic" else None
     result = {}
     with orch.runtime(tape, cfg, max_time=case.get("timeout", 10.0) * 20) as sim:
         mon = ThreadMonitor(sim)
         mon.install()
         try:
-            if case.get("workload") == "resilient":
+            if case.get("workload") == "dynamic":
+                # bare.Bare starts the directory computation from the driver, as the shipped
+                # discovery tests do: that agent is the harness's, not under test here
+                mon.ignore.add("agt_dir")
+                run_dynamic(case, tape, sim, result)
+            elif case.get("workload") == "resilient":
                 from pydcop.dcop.scenario import Scenario, DcopEvent, EventAction
                 from . import resilient
                 sim.step_cost = 0.0005
@@ -209,7 +332,8 @@ def execute(case, tape):
                     case, built, collect_moment=case["collect_moment"], period=case["period"])
                 orchestrator.deploy_computations()
                 orchestrator.run(timeout=case["timeout"])
-            result["status"] = orchestrator.status
+            if "status" not in result:
+                result["status"] = orchestrator.status
         except orch.threadsim.SimAbort as e:
             result["abort"] = str(e)
         except Exception as e:
@@ -238,7 +362,10 @@ ASSUMPTIONS = ["thread mode only", "pre-emption at synchronisation points and tr
                "boundaries; overlap = a callback of an agent entered on one thread while "
                "another callback of the same agent is still active on a different thread",
                "the monitor wraps Agent.add_computation / set_periodic_action / "
-               "Discovery.subscribe_* (harness-side, nothing in /repo changes)"]
+               "Discovery.subscribe_* (harness-side, nothing in /repo changes)",
+               "in the 'dynamic' workload the directory agent is started by the harness from the "
+               "driver thread (as the shipped discovery tests do) and is excluded from the monitor; "
+               "every operation on the other agents runs on their own thread through a control message"]
 LEVEL = "exploration"
 LEVEL_TEXT = ("Seeded search over thread schedules (line-level pre-emption, stalls, virtual "
               "timers) of complete orchestrated runs; every computation callback is checked to "
